@@ -82,9 +82,48 @@ def nodeEncObs (ts : List String) : String :=
     s!"{Hex.encode e} size={e.length}"
   | _ => "bad-value"
 
+/-- dBFT message as the Data of an Extensible payload: observation = re-encoding from the decoded fields, hash of
+the payload rebuilt around it (category "dBFT", valid 0..blockIndex, zero sender), token dump. -/
+def consObs (sr : Bool) (b : Bytes) : String :=
+  match (consMsgC sr).dec b with
+  | none => "err"
+  | some (m, _) =>
+    let e := (consMsgC sr).enc m
+    let h := extensibleHash ⟨[0x64, 0x42, 0x46, 0x54], 0, m.header.blockIndex, List.replicate 20 0, e, ⟨[], []⟩⟩
+    s!"ok rest=0 enc={Hex.encode e} hash={Hex.encode h} v={joinToks (showConsMsg sr m)}"
+
+/-- P2P message (uncompressed frames only: LZ4 is not modelled): canonical uncompressed re-encoding, dump. -/
+def messageObs (sr : Bool) (b : Bytes) : String :=
+  match messageDec (fun _ => none) Sha256.hash p256 sr b with
+  | none => "err"
+  | some (cmd, p, r) =>
+    let e := frameC.enc ⟨0, cmd, payloadEnc Sha256.hash p256 sr p⟩
+    s!"ok rest={r.length} enc={Hex.encode e} hash=- v={joinToks (toString cmd.toNat :: showPayload sr p)}"
+
+def notaryHash (r : NotaryRequest) : Bytes :=
+  Sha256.hash ((txC p256).enc r.main ++ (txC p256).enc r.fallback)
+
 def decOp (name : String) (b : Bytes) : String :=
   match name with
+  | "message0" => messageObs false b
+  | "message1" => messageObs true b
+  | "notaryreq" => decObs (notaryRequestC Sha256.hash p256) (fun r => some (notaryHash r)) showNotary b
+  | "p2p.version" => decObs versionC (fun _ => none) showVersion b
+  | "p2p.addr" => decObs addressListC (fun _ => none) showAddrs b
+  | "p2p.inv" => decObs inventoryC (fun _ => none) showInventory b
+  | "p2p.getblocks" => decObs getBlocksC (fun _ => none) showGetBlocks b
+  | "p2p.getblockbyindex" => decObs getBlockByIndexC (fun _ => none) showGetBlockByIndex b
+  | "p2p.headers0" => decObs (headersC false) (fun _ => none) (showHeaders false) b
+  | "p2p.headers1" => decObs (headersC true) (fun _ => none) (showHeaders true) b
+  | "p2p.merkleblock" => decObs merkleBlockC (fun _ => none) showMerkleBlock b
+  | "p2p.mptdata" => decObs mptDataC (fun _ => none) showHashList b
+  | "p2p.mptinv" => decObs mptInventoryC (fun _ => none) showHashList b
+  | "p2p.ping" => decObs pingC (fun _ => none) showPing b
+  | "consensus0" => consObs false b
+  | "consensus1" => consObs true b
   | "mptnode" => nodeObs b
+  | "notification" => decObs notificationC (fun _ => none) showNotification b
+  | "aer" => decObs aerC (fun _ => none) showAer b
   | "nef" => decObs (nefC Sha256.hash2) (fun _ => none) showNef b
   | "item" => itemObs false b
   | "itemprot" => itemObs true b
@@ -105,6 +144,8 @@ def decOp (name : String) (b : Bytes) : String :=
 def encOp (name : String) (ts : List String) : String :=
   match name with
   | "mptnode" => nodeEncObs ts
+  | "notification" => encObs notificationC pNotification ts
+  | "aer" => encObs aerC pAer ts
   | "nef" => encObs (nefC Sha256.hash2) pNef ts
   | "item" => itemEncObs false ts
   | "itemprot" => itemEncObs true ts
